@@ -398,6 +398,28 @@ GenF0(seed) ==
   LET c == Pick(seed, 3, 6)
       ctx == IF c = 1 THEN <<>> ELSE IF c = 6 THEN <<F0Env(seed, 4), F0Env(seed, 5)>> ELSE <<F0Env(seed, 4)>>
       exc == IF Chance(seed, 6, 1, 3) THEN <<F0Env(seed, 7)>> ELSE <<>>
-      out == IF Chance(seed, 8, 1, 2) THEN F0Lit(seed, 9) ELSE F0Mx(seed, 9)
-  IN Rule(<<F0El(seed, 10)>>, <<out>>, ctx, exc)
+      inp == F0El(seed, 10)
+      single == IF Chance(seed, 8, 1, 2) THEN F0Lit(seed, 9) ELSE F0Mx(seed, 9)
+      \* an input set may be answered by an output set of the same size (literals or matrices)
+      out == IF inp.k = "set" /\ Chance(seed, 11, 1, 2) THEN SetOf([i \in 1..Len(inp.items) |-> IF Chance(seed, C(12, i), 1, 2) THEN F0Lit(seed, C(13, i)) ELSE F0Mx(seed, C(13, i))]) ELSE single
+  IN Rule(<<inp>>, <<out>>, ctx, exc)
+(* Fragment F1 over the FULL inventory (for ScanX): k segment elements in, then k outputs / `*` / `&`, or an insertion of one or two literals; *)
+(* contexts and exceptions as in F0 (no `$` next to an insertion).                                                                          *)
+F1Out(seed, p) == IF Chance(seed, p, 1, 2) THEN F0Lit(seed, C(p, 1)) ELSE F0Mx(seed, C(p, 1))
+F1InsSide(seed, p, outer) ==
+  LET n == Pick(seed, p, 3) - 1
+      els == [i \in 1..n |-> F0El(seed, C(p, i))]
+      wb == Chance(seed, C(p, 6), 1, 6)
+  IN IF ~wb THEN els ELSE IF outer = "l" THEN <<WB>> \o els ELSE Append(els, WB)
+GenF1(seed) ==
+  LET c == Pick(seed, 3, 8)
+      k == Pick(seed, 11, 3)
+      ctx == IF Chance(seed, 12, 1, 3) THEN <<>> ELSE <<F0Env(seed, 4)>>
+      exc == IF Chance(seed, 6, 1, 4) THEN <<F0Env(seed, 7)>> ELSE <<>>
+      inp == [i \in 1..k |-> F0El(seed, C(13, i))]
+  IN CASE c <= 3 -> Rule(inp, [i \in 1..k |-> F1Out(seed, C(14, i))], ctx, exc)
+       [] c <= 5 -> Rule(inp, <<Empty>>, ctx, exc)
+       [] c <= 6 -> Rule(IF k = 1 THEN inp \o <<F0El(seed, 15)>> ELSE inp, <<Met>>, ctx, exc)
+       [] OTHER  -> LET e == Env(F1InsSide(seed, 16, "l"), F1InsSide(seed, 17, "r")) IN
+                    Rule(<<Empty>>, [i \in 1..Pick(seed, 18, 2) |-> F0Lit(seed, C(19, i))], <<IF e = EmptyEnv THEN Env(<<F0El(seed, 20)>>, <<>>) ELSE e>>, IF Chance(seed, 21, 1, 5) THEN <<F0Env(seed, 22)>> ELSE <<>>)
 =============================================================================
